@@ -62,8 +62,8 @@ func oracleUnsure(cc, code string) string {
 	}
 	switch cc {
 	case "BE":
-		if len(code) == 9 {
-			return "be-9-digits"
+		if len(code) == 9 && code[0] == '0' {
+			return "be-number-range" // the old-style notation of a 00… number
 		}
 		if len(code) == 10 && (code[0] == '1' || code[1] == '0') {
 			return "be-number-range" // numbers starting 1 (issued since 2023) or 00: range interpretation
@@ -240,9 +240,18 @@ func (k *c13) variants(code string, rng *rand.Rand) {
 	}
 }
 
+// beOldStyle writes one in three 0-prefixed Belgian numbers in the pre-2005
+// nine-digit notation (the same number without its leading zero).
+func beOldStyle(cc, code string, rng *rand.Rand) string {
+	if cc == "BE" && len(code) == 10 && code[0] == '0' && rng.IntN(3) == 0 {
+		return code[1:]
+	}
+	return code
+}
+
 func runC13(c *Ctx) {
 	c.R.Rule("per regime with a rule: random strings of the national alphabet and length, valid codes built by the oracle (random body + computed control), all single-digit substitutions and adjacent transpositions of valid codes, formatted variants (separators, lower case, country prefix) through Normalize; non-trivial = the code has the national format so the check digit decides; distinct by (country, code)")
-	c.R.Assume("national algorithms as implemented in harness/internal/taxid from the published descriptions (each Scheme.Note states the rule); ES organisation control accepted as digit or letter; FR new-style alphanumeric keys, all-zero codes, BE 9-digit legacy numbers, CO lengths outside 9-10 and MX Ñ are skipped as format interpretation (counted)")
+	c.R.Assume("national algorithms as implemented in harness/internal/taxid from the published descriptions (each Scheme.Note states the rule); ES organisation control accepted as digit or letter; FR new-style alphanumeric keys, all-zero codes, BE numbers 00… and 1… (range interpretation; 9-digit old-style numbers are read as the same number with a leading 0), CO lengths outside 9-10 and MX Ñ are skipped as format interpretation (counted)")
 	schemes := taxid.Schemes()
 	nRandom := c.N(20000, 1000000)
 	nValid := c.N(2000, 100000)
@@ -261,6 +270,7 @@ func runC13(c *Ctx) {
 		}
 		for n := 0; n < nRandom/chunks; n++ {
 			code := sc.GenRandom(rng)
+			code = beOldStyle(cc, code, rng)
 			if n%8 == 0 {
 				// wrong length / alphabet: drop or add a character, or plain garbage
 				switch rng.IntN(3) {
@@ -282,7 +292,7 @@ func runC13(c *Ctx) {
 			c.R.Case(sc.HasFormat(code), ev.Hash(cc, code))
 		}
 		for n := 0; n < nValid/chunks; n++ {
-			code := sc.GenValid(rng)
+			code := beOldStyle(cc, sc.GenValid(rng), rng)
 			k.compare(code, "generated-valid")
 			c.R.Case(true, ev.Hash(cc, code))
 			if sc.FormatOnly {
